@@ -20,6 +20,8 @@ Decides:
                     its block stay visible to the next round of `many` (shared with C05: values of a repeated choice follow the line).
  F forkers         only the listed functions clone the State: hide() and friends evaluate on the state they were given, so the state a failed deeper
                     branch leaves behind (its depth) is what this_or_that_picks_first compares.
+ T depth only grows  State.path is pushed by ParseCommand::eval and never popped: the depth this_or_that_picks_first compares survives the return of an
+                    (adjacent) command (shared with C08).
 Does not decide: ordering of values collected under many/some."""
 import re
 from core import *
